@@ -277,6 +277,9 @@ theorem defaultTree_closed (p : Path) : ∀ (h : Heap) (v : Ref), Closed h → v
     | int i =>
       rw [defaultTree.eq_5 _ _ _ _ (by simp) (by simp) (by simp)]
       exact key (fun c => .dict [((PKey.int i).toDKey, c)]) (fun c => rfl)
+    | obj i =>
+      rw [defaultTree.eq_5 _ _ _ _ (by simp) (by simp) (by simp)]
+      exact key (fun c => .dict [((PKey.obj i).toDKey, c)]) (fun c => rfl)
     | lit id w =>
       rw [defaultTree.eq_5 _ _ _ _ (by simp) (by simp) (by simp)]
       exact key (fun c => .dict [((PKey.lit id w).toDKey, c)]) (fun c => rfl)
